@@ -15,7 +15,7 @@ func Dec(s string) math.LegacyDec { return math.LegacyMustNewDecFromStr(s) }
 func DecF(f float64) math.LegacyDec {
 	return math.LegacyMustNewDecFromStr(fmt.Sprintf("%.6f", f))
 }
-func Coin(d string, a int64) sdk.Coin { return sdk.NewCoin(d, math.NewInt(a)) }
+func Coin(d string, a int64) sdk.Coin     { return sdk.NewCoin(d, math.NewInt(a)) }
 func CoinI(d string, a math.Int) sdk.Coin { return sdk.NewCoin(d, a) }
 
 // Step runs one block that starts with the default feeder's price transaction.
@@ -71,10 +71,10 @@ func (w *World) GovSubmit(title string, extra []*TxRecord, msgs ...sdk.Msg) uint
 }
 
 type PoolSpec struct {
-	Oracle  bool
-	Fee     string
-	A, B    sdk.Coin
-	WA, WB  int64
+	Oracle   bool
+	Fee      string
+	A, B     sdk.Coin
+	WA, WB   int64
 	FeeDenom string
 }
 
@@ -92,14 +92,14 @@ func (w *World) CreatePoolMsg(creator *Actor, p PoolSpec) *ammtypes.MsgCreatePoo
 // leveraged-LP enabled through a governance proposal), pool 2 = weighted constant-product
 // uelys/uusdc, optional pool 3 = constant-product uatom/uusdc; lenders bond into stablestake.
 type PrologueCfg struct {
-	Scale     int64 // pool 1 usdc side in uusdc (default 1e12)
-	Pool3     bool
-	W2A, W2B  int64
-	Fee1      string
-	Fee2      string
-	LevMax    int64
-	Bond      int64
-	LevPool2  bool
+	Scale    int64 // pool 1 usdc side in uusdc (default 1e12)
+	Pool3    bool
+	W2A, W2B int64
+	Fee1     string
+	Fee2     string
+	LevMax   int64
+	Bond     int64
+	LevPool2 bool
 }
 
 func (w *World) Prologue(c PrologueCfg) {
